@@ -284,6 +284,61 @@ def _snake(name):
     return re.sub(r'(?<!^)(?=[A-Z])', '_', name).lower()
 
 
+def _policy_order_rule(ctx):
+    """All before-start hooks of a task run in the order of
+    get_policy_factories().  A hook that holds the task before it starts
+    (sets it IDLE: pause-before) has to run before every hook that asks
+    whether the task is being held (compares the state with IDLE before it
+    delays the task and arms the timer that starts it: wait-before) -
+    otherwise the timer is armed first and starts the task although the
+    workflow was paused for it."""
+    prog = ctx.prog
+    r = ctx.rule('R12', 'a before-start policy that holds the task (IDLE) '
+                 'runs before the policies that test for IDLE', 'PAIR (order)')
+    POL = 'mistral.engine.policies'
+    gf = prog.func(POL + '.get_policy_factories')
+    rets = [x for x in own_nodes(gf.node) if isinstance(x, ast.Return)]
+    if len(rets) != 1 or not isinstance(rets[0].value, (ast.List, ast.Tuple)) \
+            or not all(isinstance(e, ast.Name) for e in rets[0].value.elts):
+        raise AnalysisError('get_policy_factories: not a literal list of '
+                            'factories')
+    order = [e.id for e in rets[0].value.elts]
+    writers, readers = [], []
+    for i, fac in enumerate(order):
+        f = prog.func(POL + '.' + fac)
+        classes = set()
+        for x in ast.walk(f.node):
+            if isinstance(x, ast.Call) and isinstance(x.func, ast.Name) and \
+                    (POL + '.' + x.func.id + '.__init__') in prog.funcs:
+                classes.add(x.func.id)
+        if len(classes) != 1:
+            raise AnalysisError('%s: policy class not identified (%s)'
+                                % (fac, sorted(classes)))
+        cls = classes.pop()
+        h = prog.funcs.get('%s.%s.before_task_start' % (POL, cls))
+        if h is None:
+            continue
+        for x in own_nodes(h.node):
+            if isinstance(x, ast.Call) and U.call_name(x) == 'set_state' \
+                    and x.args and norm(x.args[0]) == 'states.IDLE':
+                writers.append((i, fac, h))
+            if isinstance(x, ast.Compare) and any(
+                    norm(o) == 'states.IDLE'
+                    for o in [x.left] + x.comparators):
+                readers.append((i, fac, h))
+    if not writers or not readers:
+        raise AnalysisError('policy order: no hook sets / tests IDLE '
+                            '(writers %s, readers %s)' % (writers, readers))
+    for wi, wf, wh in writers:
+        for ri, rf, rh in readers:
+            r.check(wi < ri, ctx.construct(gf, extra='%s before %s'
+                                           % (wf, rf)),
+                    '%s (tests whether the task is held IDLE) runs before '
+                    '%s (holds it): the task is delayed and its timer armed '
+                    'before the pause, and the timer starts it while the '
+                    'workflow is paused' % (rf, wf), ctx.loc(gf))
+
+
 def _policy_factories_rule(ctx):
     """Which policies a task gets: each factory builds its policy exactly
     when the task (or task-defaults) spec configures it - a number above
@@ -450,6 +505,7 @@ def run(ctx):
     _run(ctx)
     _hooks_rule(ctx)
     _policy_factories_rule(ctx)
+    _policy_order_rule(ctx)
     _fresh_policies_rule(ctx)
     _callbacks_rule(ctx)
     from mstatic.rules import shared
